@@ -47,6 +47,7 @@ func CreatePropellerUnits(
 			MessageRoot: messageRoot,
 			MerkleProof: merkleTree[i],
 			Signature:   signature,
+			Nonce:       nonce,
 			ShardIndex:  ShardIndex(i),
 			// todo(rdr): assigning one shard per unit until multi shard algo per unit
 			//            is clear to me.
